@@ -31,7 +31,7 @@ impl<T: Sized> JoinHandle<T> {
     pub fn join(self) -> Option<T> {
         // The OS will change to futex value to 0 and then wake it when the thread finishes.
         unsafe {
-            futex_wait_fast(self.tsm.get_futex(), UNFINISHED);
+            wait_for_exit(self.tsm.get_futex());
             // The thread has completed, we have exclusive access to the memory.
             // Pack it into a box, then consume the box to get the value off the heap.
             let val = self.tsm.get_value::<T>().into_inner();
@@ -57,13 +57,24 @@ impl<T: Sized> Drop for JoinHandle<T> {
             {
                 // The thread got its work done first, we need to wait for it to exit, signalled
                 // by the OS through the futex, then we know we have exclusive access to the memory.
-                futex_wait_fast(self.tsm.get_futex(), UNFINISHED);
+                wait_for_exit(self.tsm.get_futex());
                 // Nobody joined the thread, its return value (if it got to produce one) was never
                 // taken out: drop it before freeing the memory it lives in.
                 core::ptr::drop_in_place(self.tsm.value_mut::<T>());
                 self.tsm.dealloc();
             }
         }
+    }
+}
+
+/// Blocks until the kernel has cleared the futex word, which it does when the thread exits.
+/// Returning from the futex wait is not proof of that: a wake-up can be spurious (for instance
+/// a late wake aimed at a previous user of the same memory), so the word is re-checked after
+/// every return. The `Acquire` load pairs with the kernel's write at thread exit.
+#[inline]
+fn wait_for_exit(futex: &AtomicU32) {
+    while futex.load(Ordering::Acquire) == UNFINISHED {
+        futex_wait_fast(futex, UNFINISHED);
     }
 }
 
